@@ -222,11 +222,32 @@ def check(prog, run):
         f = prog.func(modname, clsname, "unmarshall_datain")
         nmin += 1
 
-        def thm(case=case, cls=cls):
+        def thm(case=case, cls=cls, form=None):
             cells = [case["fixed"].get(i, mem_byte("resp", (None, i))) for i in range(case["length"])]
             fn = I.get_attr(cls, "unmarshall_datain", None, _F())
-            return I.call(fn, [Buf(cells=cells)], dict(case["kwargs"]), None, _F())
+            buf = Buf(cells=cells)
+            buf.pytype = form          # None: a bytearray; "bytes" / "memoryview": the other byte buffers a transport may hand over
+            return I.call(fn, [buf], dict(case["kwargs"]), None, _F())
         c = "%s.unmarshall_datain on %s (%d bytes)" % (clsname, case["note"], case["length"])
+        # the same response as an immutable bytes object and as a memoryview: decoding reads the buffer, it needs nothing else of it
+        for form in ("bytes", "memoryview"):
+            try:
+                psf = I.explore(lambda form=form: thm(form=form), max_paths=400)
+            except AnalysisError as e:
+                if e.reason in ("path-limit",):
+                    continue
+                if e.reason != "static-loop-does-not-terminate":
+                    raise
+                run.violation("minimum-length-response-decodes", c + " given as " + form, "the decoder never returns (%s)" % e.detail,
+                              prog.rel(f.module), f.node.lineno, f.qualname)
+                continue
+            badf = [p for p in psf if not p.returned]
+            if badf:
+                run.violation("minimum-length-response-decodes", c + " given as " + form,
+                              "the same conformant response handed over as a %s object makes the decoder raise %s"
+                              % (form, badf[0].raised.describe()), prog.rel(f.module), f.node.lineno, f.qualname)
+            else:
+                run.ok("minimum-length-response-decodes", c + " given as " + form, nontrivial=False)
         try:
             ps = I.explore(thm, max_paths=400)
             if case.get("count"):
